@@ -121,6 +121,45 @@ def boundary_c12() -> List[List[list]]:
     return res
 
 
+def resub_family() -> List[List[list]]:
+    """unsubscribe -> timer -> change while unsubscribed -> resubscribe -> another characteristic
+    changes (1-2 connections, x and y including the immediate types, with / without an own write,
+    with / without a still-subscribed entry in the queue when the first timer fires)"""
+    res = []
+    for two in (False, True):
+        for x, y in ((0, 1), (1, 0), (0, 3), (3, 0), (1, 2), (0, 2)):
+            for d_unsub in (0, 2, 6):
+                for own in (None, "x", "y"):
+                    for y_queued in (False, True):
+                        for d_wait in (10, 2):  # first timer fires before / after the resubscription
+                            ops = [["advance", 1], ["connect", 0], ["verify", 0]]
+                            if two:
+                                ops += [["connect", 1], ["verify", 1], ["put", 1, x, True, None, False], ["put", 1, y, True, None, False]]
+                            ops += [["put", 0, x, True, None, False], ["put", 0, y, True, None, False], ["app_set", x, vfor(x, 10)]]
+                            if x in IMM:
+                                pass  # left pending: the soon-callback runs at the next advance
+                            if y_queued:
+                                ops.append(["app_set", y, vfor(y, 4)])
+                            if d_unsub:
+                                ops.append(["advance", d_unsub])
+                            ops.append(["put", 0, x, False, None, False])
+                            ops.append(["advance", d_wait])
+                            ops.append(["app_set", x, vfor(x, 20)])
+                            if own == "x":
+                                ops.append(["put", 0, x, None, vfor(x, 30), False])
+                            elif own == "y":
+                                ops.append(["put", 0, y, None, vfor(y, 31), False])
+                            if two and own is None:
+                                ops.append(["put", 1, x, None, vfor(x, 40), False])
+                            ops.append(["put", 0, x, True, None, False])
+                            ops.append(["advance", 10])
+                            ops.append(["app_set", y, vfor(y, 5)])
+                            ops.append(["advance", 16])
+                            ops.append(["get", 0, x])
+                            res.append(ops)
+    return res
+
+
 def random_script(rng: random.Random, max_ops: int = 30, flavour: str = "c12") -> List[list]:
     b = Book()
     ops: List[list] = [["advance", 1]]
@@ -156,7 +195,18 @@ def random_script(rng: random.Random, max_ops: int = 30, flavour: str = "c12") -
             ops.append(["put", p, x, ev, vfor(x, rng.choice([1, 2, 3, 10, 20, 30, rng.randrange(101)])), False])
         elif r < 0.52 and live:
             p = rng.choice(live)
-            ops.append(["put", p, x, rng.choice([True, True, False]), None, False])
+            ev = rng.choice([True, True, False, False])
+            ops.append(["put", p, x, ev, None, False])
+            if not ev and rng.random() < 0.6:
+                # unsubscribe / (time passes / value changes) / resubscribe around the window
+                if rng.random() < 0.6:
+                    ops.append(["advance", rng.choice([2, 6, 8, 10])])
+                if rng.random() < 0.7:
+                    ops.append(["app_set", x, vfor(x, rng.randrange(101))])
+                ops.append(["put", p, x, True, None, False])
+                if rng.random() < 0.6:
+                    y = rng.choice(xs)
+                    ops.append(["app_set", y, vfor(y, rng.randrange(101))])
         elif r < 0.70:
             ops.append(["advance", rng.choice([2, 2, 4, 6, 8, 10, 16])])
         elif r < 0.74:
@@ -257,7 +307,7 @@ def canon_impl(res: Dict[str, Any]) -> Dict[str, Any]:
 
 def model_line(ops, fixed=True, imm=None, nul=None) -> Dict[str, Any]:
     return {"layer": "sysev", "imm": IMM if imm is None else imm, "nul": NUL if nul is None else nul,
-            "fix12": fixed, "fix13": fixed, "ops": ops}
+            "fix12": fixed, "fix13": fixed, "fixResub": fixed, "ops": ops}
 
 
 def first_difference(model, impl):
